@@ -49,7 +49,9 @@ theorem step_spec_mft (b : BState) :
     the PT-TEBD lists only contain micro-ops the PT-TEBD model interprets -/
 theorem fixed_end_step_shapes :
     ptStepIncFirst = true ∧ gibbsStepShape = true ∧
-    tebdOpsOnly tebd_compute_step = true ∧ tebdOpsOnly tebd_initialize = true := by decide
+    tebdOpsOnly tebd_compute_step = true ∧ tebdOpsOnly tebd_initialize = true ∧
+    traceOpsOnly tebd_append_results = true ∧ traceOpsOnly tebd_get_dm = true ∧
+    traceOpsOnly tebd_get_results = true ∧ traceOpsOnly tebd_get_mps = true := by decide
 
 /-! ## 1. `split_eq_single` — TEMPO, mean-field TEMPO -/
 
@@ -161,7 +163,7 @@ theorem split_eq_single (ops : List MicroOp) (hinc : lastSetStep ops = some ⟨1
     user-callable invocation, no new entry in the dynamics — for any fault oracle. -/
 theorem reached_target_noop (ops : List MicroOp) (endStep : Rat → Int)
     (numStep : Int → Rat → Int) (hns : ∀ k e, numStep k e = max 0 (endStep e - k))
-    (time : Int → Rat) (faulty : Nat → Bool) (o : Obj) (hs : o.started = true) (e : Rat)
+    (time : Int → Rat) (faulty : Oracle) (o : Obj) (hs : o.started = true) (e : Rat)
     (h : endStep e ≤ o.b.core.step) :
     compute numStep time 0 ops faulty o e = (o, true) := by
   unfold compute startObj
@@ -175,12 +177,13 @@ theorem reached_target_noop (ops : List MicroOp) (endStep : Rat → Int)
 /-- **Canonical-state invariant for all histories and all fault sequences.**  If every
     `callUser` of the backend step precedes its unprotected effects (`faultSafe`), then after
     ANY non-empty sequence of compute calls — whichever user-callable invocations raised,
-    whichever calls therefore failed — the object is exactly in the state of a fault-free
+    with whatever exception class (`Oracle.base`), whichever calls therefore failed — the
+    object is exactly in the state of a fault-free
     computation of some number `k` of steps: nothing is skipped, doubled or shifted. -/
 theorem history_canonical (ops : List MicroOp) (hsafe : faultSafe ops = true)
     (hinc : lastSetStep ops = some ⟨1, 1⟩) (numStep : Int → Rat → Int)
     (time : Int → Rat) (hm : ∀ a b : Int, a ≤ b → time a ≤ time b)
-    (faulty : Nat → Bool) (e : Rat) (es : List Rat) :
+    (faulty : Oracle) (e : Rat) (es : List Rat) :
     ∃ k : Nat, (runHist numStep time 0 ops faulty (e :: es) Obj.fresh).view =
       (faultFree ops time k).view := by
   have key : ∀ (l : List Rat) (o : Obj) (k : Nat), Canon ops time o k →
@@ -213,7 +216,7 @@ theorem retry_after_fault (ops : List MicroOp) (hsafe : faultSafe ops = true)
     (endStep : Rat → Int) (numStep : Int → Rat → Int)
     (hns : ∀ k e, numStep k e = max 0 (endStep e - k))
     (time : Int → Rat) (hm : ∀ a b : Int, a ≤ b → time a ≤ time b)
-    (faulty : Nat → Bool) (pre : List Rat) (e : Rat)
+    (faulty : Oracle) (pre : List Rat) (e : Rat)
     (hpre : ∀ x ∈ pre, endStep x ≤ endStep e) :
     let r := compute numStep time 0 ops faulty (runHist numStep time 0 ops faulty pre Obj.fresh) e
     r.2 = false ∨ r.1.view = (compute numStep time 0 ops noFault Obj.fresh e).1.view := by
@@ -282,7 +285,7 @@ theorem mft_split_eq_single (s dt : Rat) (hdt : 0 < dt) (targets : List Rat) (T 
     fails again or gives the no-failure result.  (`by decide` on the regenerated list: this is
     the obligation that breaks when the counter is advanced before the propagators are
     evaluated.) -/
-theorem tempo_retry_after_fault (s dt : Rat) (hdt : 0 < dt) (faulty : Nat → Bool)
+theorem tempo_retry_after_fault (s dt : Rat) (hdt : 0 < dt) (faulty : Oracle)
     (pre : List Rat) (e : Rat) (hpre : ∀ x ∈ pre, x ≤ e) :
     let r := compute (tempo_num_step s dt) (tempo_time s dt) tempo_init_step tempo_compute_step
       faulty (runHist (tempo_num_step s dt) (tempo_time s dt) tempo_init_step tempo_compute_step
@@ -297,7 +300,7 @@ theorem tempo_retry_after_fault (s dt : Rat) (hdt : 0 < dt) (faulty : Nat → Bo
 
 /-- `MeanFieldTempo`: the same for failures of the field equation of motion (any of its three
     evaluations per step) and of the Hamiltonians. -/
-theorem mft_retry_after_fault (s dt : Rat) (hdt : 0 < dt) (faulty : Nat → Bool)
+theorem mft_retry_after_fault (s dt : Rat) (hdt : 0 < dt) (faulty : Oracle)
     (pre : List Rat) (e : Rat) (hpre : ∀ x ∈ pre, x ≤ e) :
     let r := compute (mft_num_step s dt) (mft_time s dt) mft_init_step mft_compute_step
       faulty (runHist (mft_num_step s dt) (mft_time s dt) mft_init_step mft_compute_step
@@ -311,7 +314,7 @@ theorem mft_retry_after_fault (s dt : Rat) (hdt : 0 < dt) (faulty : Nat → Bool
     (fun x hx => FloatGrid.steps_mono s dt hdt (hpre x hx))
 
 /-- all histories / all fault sequences, for both objects -/
-theorem tempo_history_canonical (s dt : Rat) (hdt : 0 < dt) (faulty : Nat → Bool)
+theorem tempo_history_canonical (s dt : Rat) (hdt : 0 < dt) (faulty : Oracle)
     (e : Rat) (es : List Rat) :
     ∃ k : Nat, (runHist (tempo_num_step s dt) (tempo_time s dt) tempo_init_step
         tempo_compute_step faulty (e :: es) Obj.fresh).view =
@@ -319,7 +322,7 @@ theorem tempo_history_canonical (s dt : Rat) (hdt : 0 < dt) (faulty : Nat → Bo
   history_canonical tempo_compute_step (by decide) (by decide) _ _
     (FloatGrid.gridTime_mono s dt hdt.le) faulty e es
 
-theorem mft_history_canonical (s dt : Rat) (hdt : 0 < dt) (faulty : Nat → Bool)
+theorem mft_history_canonical (s dt : Rat) (hdt : 0 < dt) (faulty : Oracle)
     (e : Rat) (es : List Rat) :
     ∃ k : Nat, (runHist (mft_num_step s dt) (mft_time s dt) mft_init_step
         mft_compute_step faulty (e :: es) Obj.fresh).view =
@@ -349,7 +352,7 @@ example : faultSafe tempo_compute_step = true ∧ lastSetStep tempo_compute_step
     at step 3 with the four grid states. -/
 example :
     let numStep : Int → Rat → Int := fun k e => max 0 (e.floor - k)
-    let faulty : Nat → Bool := fun n => n == 1 || n == 4
+    let faulty : Oracle := ⟨fun n => n == 1 || n == 4, fun n => n == 4⟩
     let o1 := compute numStep idxTime 0 tempo_compute_step faulty Obj.fresh 3
     let o2 := compute numStep idxTime 0 tempo_compute_step faulty o1.1 3
     o1.2 = false ∧ o2.2 = true ∧ o2.1.dyn.times.length = 4 ∧ o2.1.b.calls = 4 := by
@@ -488,6 +491,49 @@ example :
       [.evolve 1, .ctrl false 1, .evolve 2, .ctrl true 2, .evolve 3, .evolve 4] := by
   decide +kernel
 
+/-! ## 1''. read-only getters between compute calls — PT-TEBD -/
+
+/-- **Getters are pure reads.**  For every history of `compute(end_step)`,
+    `get_current_density_matrix`, `get_results`, `get_augmented_mps` calls (any order) the
+    object ends with the same step, chain state and recorded results as the history with the
+    getters removed — hence (`tebd_split_eq_single`) as the single call with the largest target.
+    Rests on two regenerated facts: the getter lists record nothing, and
+    `PtTebdBackend.compute_traces` recomputes the traces on every path
+    (`tracesAlwaysFresh_true`), so traces left behind by a getter are never reused. -/
+theorem tebd_getters_pure (cfg : TebdCfg) (ops : List TebdOp) :
+    TebdSame (tebdOpHist cfg ops) (tebdHist cfg (computesOf ops)) := by
+  have hdm : tebd_get_dm.all (fun o => o != .record) = true := by decide
+  have hres : tebd_get_results.all (fun o => o != .record) = true := by decide
+  have hmps : tebd_get_mps.all (fun o => o != .record) = true := by decide
+  have key : ∀ (l : List TebdOp) (t u : Tebd), TebdSame t u →
+      TebdSame (l.foldl (tebdOp cfg) t) ((computesOf l).foldl (tebdCompute cfg) u) := by
+    intro l
+    induction l with
+    | nil => intro t u h; simpa [computesOf] using h
+    | cons o r ih =>
+      intro t u h
+      have getter : ∀ g, g.all (fun o => o != MicroOp.record) = true →
+          TebdSame (tebdGetter g t) u := fun g hg =>
+        let a := tebdGetter_same g hg t
+        ⟨a.1.trans h.1, a.2.1.trans h.2.1, a.2.2.trans h.2.2⟩
+      cases o with
+      | compute e =>
+        simp only [List.foldl_cons, computesOf, tebdOp]
+        exact ih _ _ (tebdCompute_same cfg t u h e)
+      | getDM => simp only [List.foldl_cons, computesOf, tebdOp]; exact ih _ _ (getter _ hdm)
+      | getResults => simp only [List.foldl_cons, computesOf, tebdOp]; exact ih _ _ (getter _ hres)
+      | getMPS => simp only [List.foldl_cons, computesOf, tebdOp]; exact ih _ _ (getter _ hmps)
+  exact key ops _ _ (TebdSame.refl _)
+
+/-- non-vacuity / content: compute(2), fetch a density matrix, compute(4) records the chain
+    state of step 3 for step 3 (not the traces cached by the fetch) -/
+example :
+    let cfg : TebdCfg := ⟨0, fun _ _ => false, []⟩
+    (tebdOpHist cfg [.compute 2, .getDM, .compute 4]).results =
+      (tebdHist cfg [4]).results ∧
+    (tebdOpHist cfg [.compute 2, .getDM]).traces ≠ none := by
+  decide +kernel
+
 /-! ## 4. `restart_eq_uninterrupted` — PT-TEBD -/
 
 theorem tebdStep_congr (cfg cfg' : TebdCfg) (h : cfg'.hasCtrl = cfg.hasCtrl) (t : Tebd) :
@@ -538,7 +584,8 @@ theorem restart_eq_uninterrupted_partial (cfg : TebdCfg) (hstart : cfg.startStep
   let cfg' := tebdRestartCfg cfg u
   have hcfg : cfg'.hasCtrl = cfg.hasCtrl := rfl
   have hstart' : cfg'.startStep = (m : Int) := by simp [cfg', tebdRestartCfg, hus]
-  have hinit' : tebdInit cfg' Tebd.fresh = ⟨some (m : Int), u.chain, [((m : Int), u.chain)]⟩ := by
+  have hinit' : tebdInit cfg' Tebd.fresh =
+      ⟨some (m : Int), u.chain, [((m : Int), u.chain)], none⟩ := by
     rw [tebdInit_eq]
     simp only [hstart', ctl, hcfg, hfree]
     simp [cfg', tebdRestartCfg]
